@@ -1,6 +1,7 @@
 package task
 
 import (
+	"fmt"
 	"slices"
 
 	"github.com/go-task/task/v3/errors"
@@ -42,8 +43,17 @@ func (e *Executor) areTaskRequiredVarsAllowedValuesSet(t *ast.Task) error {
 	for _, requiredVar := range t.Requires.Vars {
 		varValue, _ := t.Vars.Get(requiredVar.Name)
 
+		if requiredVar.Enum == nil {
+			continue
+		}
+
+		// A value that is not a string (a number or a boolean from YAML) is
+		// compared by its text, like a value given on the command line
 		value, isString := varValue.Value.(string)
-		if isString && requiredVar.Enum != nil && !slices.Contains(requiredVar.Enum, value) {
+		if !isString {
+			value = fmt.Sprint(varValue.Value)
+		}
+		if !slices.Contains(requiredVar.Enum, value) {
 			notAllowedValuesVars = append(notAllowedValuesVars, errors.NotAllowedVar{
 				Value: value,
 				Enum:  requiredVar.Enum,
